@@ -31,6 +31,18 @@ pub type F101 = Fp64<MontBackend<F101Config, 1>>;
 pub struct F11Config;
 pub type F11 = Fp64<MontBackend<F11Config, 1>>;
 
+#[derive(ark_ff::MontConfig)]
+#[modulus = "107"]
+#[generator = "2"]
+pub struct F107Config;
+pub type F107 = Fp64<MontBackend<F107Config, 1>>;
+
+#[derive(ark_ff::MontConfig)]
+#[modulus = "23"]
+#[generator = "5"]
+pub struct F23Config;
+pub type F23 = Fp64<MontBackend<F23Config, 1>>;
+
 // ---- byte-transparent fields: p = 2^(8j) - c, SEC_PARAM = 0 gives L = j, so u_i = bytes mod p ----
 #[derive(ark_ff::MontConfig)]
 #[modulus = "251"]
@@ -162,4 +174,35 @@ impl Elligator2Config for ToyEll2 {
     const Z: F101 = MontFp!("2");
     const ONE_OVER_COEFF_B_SQUARE: F101 = MontFp!("80");
     const COEFF_A_OVER_COEFF_B: F101 = MontFp!("56");
+}
+
+// ------------------------------------------------------------------------------------------------
+// A second toy Elligator 2 curve over a field with q = 3 (mod 4): there Z = -1 and the exceptional
+// inputs of the map (the roots of 1 + Z u^2, i.e. u = +-1) exist, which they do not for any shipped
+// configuration (bandersnatch and the F_101 toy have q = 1 mod 4). Found by brute force:
+// Montgomery 2 t^2 = s^3 + 5 s^2 + s, twisted Edwards 57 v^2 + w^2 = 1 + 55 v^2 w^2 over F_107,
+// order 92 = 4 * 23.
+pub struct ToyEll2b;
+impl CurveConfig for ToyEll2b {
+    const COFACTOR: &'static [u64] = &[4];
+    const COFACTOR_INV: F23 = MontFp!("6");
+    type BaseField = F107;
+    type ScalarField = F23;
+}
+impl TECurveConfig for ToyEll2b {
+    const COEFF_A: F107 = MontFp!("57");
+    const COEFF_D: F107 = MontFp!("55");
+    const GENERATOR: twisted_edwards::Affine<Self> =
+        twisted_edwards::Affine::new_unchecked(MontFp!("45"), MontFp!("84"));
+    type MontCurveConfig = Self;
+}
+impl MontCurveConfig for ToyEll2b {
+    const COEFF_A: F107 = MontFp!("5");
+    const COEFF_B: F107 = MontFp!("2");
+    type TECurveConfig = Self;
+}
+impl Elligator2Config for ToyEll2b {
+    const Z: F107 = MontFp!("-1");
+    const ONE_OVER_COEFF_B_SQUARE: F107 = MontFp!("27");
+    const COEFF_A_OVER_COEFF_B: F107 = MontFp!("56");
 }
